@@ -199,8 +199,27 @@ void Groups::evalArguments( int argc, char* argv[]) noexcept( false)
       auto        result = Handler::ArgResult::unknown;
       const bool  is_value
          = ai->mElementType == detail::ArgListElement::Type::value;
+      // a free value belongs to the handler with an open multi-value list, not
+      // to e.g. a positional argument of a handler that was added earlier
+      if (is_value)
+      {
+         for (auto & stored_group : mArgGroups)
+         {
+            auto const  last_arg = stored_group.mpArgHandler->mpLastArg;
+            if ((last_arg != nullptr) && last_arg->takesMultiValue())
+            {
+               result = stored_group.mpArgHandler->evalSingleArgument( ai,
+                  alp.end());
+               break;   // for
+            } // end if
+         } // end for
+      } // end if
+
       for (auto & stored_group : mArgGroups)
       {
+         if (result != Handler::ArgResult::unknown)
+            break;   // for
+
          result = stored_group.mpArgHandler->evalSingleArgument( ai, alp.end());
          if (result != Handler::ArgResult::unknown)
          {
